@@ -129,3 +129,38 @@ class Raiser(Command):
         if "After" in kwargs:
             kwargs["After"].result
         _raise(kwargs["Kind"])
+
+
+class NumSrc(Command):
+    """A leaf whose declared output is a number: returns V itself."""
+
+    inputs = {"V": params.NumberParameter()}
+    output = params.NumberParameter()
+
+    def execute(self, **kwargs):
+        vlog.LOG.append(("enter", self.result_name))
+        vlog.LOG.append(("exit", self.result_name))
+        return kwargs["V"]
+
+
+class Typed(Command):
+    """References with a declared result type (a text-typed parameter also accepts number results): returns
+    [name, [the finished results it was fed, in the order TS, TN, TL...]] exactly as it received them."""
+
+    inputs = {
+        "TS": params.ResultParameter(params.StringParameter(), required=False),
+        "TN": params.ResultParameter(params.NumberParameter(), required=False),
+        "TL": params.ListParameter(params.ResultParameter(params.StringParameter()), required=False),
+    }
+    output = params.Parameter()
+
+    def execute(self, **kwargs):
+        vlog.LOG.append(("enter", self.result_name))
+        got = []
+        for key in ("TS", "TN"):
+            if key in kwargs:
+                got.append(kwargs[key].result)
+        for c in kwargs.get("TL", []):
+            got.append(c.result)
+        vlog.LOG.append(("exit", self.result_name))
+        return [self.result_name, got]
